@@ -134,6 +134,11 @@ class FunctionCurveBase(PointCurveBase):
 
         return np.array([self.function(t) for t in params])
 
+    @property
+    def _scan_count(self) -> int:
+        """Number of samples for the coarse stage of the closest point search"""
+        return 101
+
     def get_closest_param(self, point: PointType) -> float:
         """Finds the param on curve where point is the closest to given point;
         To improve search speed and reliability, an optional starting
@@ -142,7 +147,7 @@ class FunctionCurveBase(PointCurveBase):
 
         # a dense scan finds candidate neighbourhoods: local minimums of sampled distances
         # (the closest sample alone can belong to a wrong one where the curve runs fast or comes back to itself)
-        params = np.linspace(self.bounds[0], self.bounds[1], num=101)
+        params = np.linspace(self.bounds[0], self.bounds[1], num=self._scan_count)
         distances = np.array([f.norm(self.function(t) - point) for t in params])
         last = len(params) - 1
         candidates = [
